@@ -143,33 +143,29 @@ fn transactions_for_pool(transactions: &[Transaction], pool_key: &PoolKey) -> Ve
 }
 
 /// Creates the built-in pools if they don't exist. The built-in pools start out with nonzero liq, so that they can never be completely depleted. This ensures that built-in pools will always exist in the state.
+///
+/// A pool that exists but holds no liquidity at all counts as missing: before TIP-902 the ERG/SYM pool is an ordinary pool that its only depositor can empty again, and a built-in pool without reserves makes pegging divide by zero.
 fn create_builtins<C: ContentAddrStore>(mut state: UnsealedState<C>) -> UnsealedState<C> {
     let mut def = PoolState::new_empty();
     let _ = def.deposit(MICRO_CONVERTER * 1000, MICRO_CONVERTER * 1000);
-    if state
-        .pools
-        .get(&PoolKey::new(Denom::Mel, Denom::Sym))
-        .is_none()
-    {
+    let missing = |state: &UnsealedState<C>, key: PoolKey| {
+        state
+            .pools
+            .get(&key)
+            .map(|pool| pool.liqs == 0)
+            .unwrap_or(true)
+    };
+    if missing(&state, PoolKey::new(Denom::Mel, Denom::Sym)) {
         state
             .pools
             .insert(PoolKey::new(Denom::Mel, Denom::Sym), def)
     }
-    if state
-        .pools
-        .get(&PoolKey::new(Denom::Mel, Denom::Erg))
-        .is_none()
-    {
+    if missing(&state, PoolKey::new(Denom::Mel, Denom::Erg)) {
         state
             .pools
             .insert(PoolKey::new(Denom::Mel, Denom::Erg), def)
     }
-    if state.tip_902()
-        && state
-            .pools
-            .get(&PoolKey::new(Denom::Erg, Denom::Sym))
-            .is_none()
-    {
+    if state.tip_902() && missing(&state, PoolKey::new(Denom::Erg, Denom::Sym)) {
         state
             .pools
             .insert(PoolKey::new(Denom::Erg, Denom::Sym), def)
